@@ -1,6 +1,6 @@
 (* C06 - Queue memory is laid out, registered and released correctly for every size. *)
 (* This file contains only statements; every proof is `exact` of a lemma in Proofs/. *)
-From VD Require Import Base.Words Model.Layout Proofs.LayoutProofs.
+From VD Require Import Base.Words Model.Layout Proofs.LayoutProofs Extract.Dispatch Proofs.LayoutMonProofs.
 
 (* the sixteen supported sizes are exactly the powers of two 2^0 .. 2^15 *)
 Theorem C06_sizes : forall n, In n sizes <-> exists k, k <= 15 /\ n = 2 ^ k.
@@ -78,6 +78,64 @@ Example C06_nonvacuous :
     /\ device_paddr l = 65536 + 4096 /\ In 8 sizes.
 Proof. eexists; eexists; vm_compute; repeat split; auto 10. Qed.
 
+(* ---- the monitors decided inline in Extract/Dispatch.v step_alloc mean what they stand for (Proofs/LayoutMonProofs.v) ---- *)
+(* kinds 1 / 2 (ledger lines): the expected output is [0] in every model state, whatever the inputs: an accepted line states
+   0 platform-contract violations / 0 DMA regions or shares still live *)
+Theorem C06_monitor_ledger_meaning : forall st k ins obs,
+  k = 1 \/ k = 2 -> snd (step st k ins) = obs -> obs = [0] /\ is_monitor k = true.
+Proof. exact mon_ledger_meaning. Qed.
+
+(* kind 612: what a true verdict states about the three areas given to queue_set and the live DMA regions holding them *)
+Theorem C06_monitor_612_meaning : forall st legacy n desc drv dev a1 p1 a2 p2 d1 d2,
+  snd (step_alloc st 612 [legacy; n; desc; drv; dev; a1; p1; a2; p2; d1; d2]) = [1] ->
+  desc mod 16 = 0 /\ drv mod 2 = 0 /\ dev mod 4 = 0
+  /\ (desc + 16 * n <= drv \/ drv + 2 * (3 + n) <= desc)
+  /\ (desc + 16 * n <= dev \/ dev + (6 + 8 * n) <= desc)
+  /\ (drv + 2 * (3 + n) <= dev \/ dev + (6 + 8 * n) <= drv)
+  /\ (a1 <= desc /\ desc + 16 * n <= a1 + p1 * 4096)
+  /\ (a1 <= drv /\ drv + 2 * (3 + n) <= a1 + p1 * 4096)
+  /\ (d1 = 0 \/ d1 = 2)
+  /\ (d2 = 1 \/ d2 = 2)
+  /\ (legacy = 0 -> a2 <= dev /\ dev + (6 + 8 * n) <= a2 + p2 * 4096)
+  /\ (legacy <> 0 ->
+        (a1 <= dev /\ dev + (6 + 8 * n) <= a1 + p1 * 4096) /\ a1 mod 4096 = 0 /\ drv = desc + 16 * n
+        /\ dev = a1 + (16 * n + 2 * (3 + n) + 4095) / 4096 * 4096).
+Proof. exact mon612_meaning. Qed.
+
+Theorem C06_monitor_612_decodes : forall st ins, snd (step_alloc st 612 ins) = [1] ->
+  exists legacy n desc drv dev a1 p1 a2 p2 d1 d2, ins = [legacy; n; desc; drv; dev; a1; p1; a2; p2; d1; d2].
+Proof. exact mon612_decodes. Qed.
+
+(* kind 612 holds of queue_new of the model for the sixteen sizes, both layouts, page-aligned non-overlapping platform answers *)
+Theorem C06_monitor_612_holds_of_model : forall st legacy n idx maxsz a1 a2 l evs,
+  In n sizes -> a1 mod PAGE = 0 -> a2 mod PAGE = 0 ->
+  (legacy = false ->
+     a1 + pages (desc_size n + avail_size n) * PAGE <= a2 \/ a2 + pages (used_size n) * PAGE <= a1) ->
+  queue_new legacy n idx false maxsz a1 a2 = (Ok l, evs) ->
+  snd (step_alloc st 612 (enc612 legacy n l)) = [1]
+  /\ (if legacy then In (EvAlloc (l_p1 l) DIR_BOTH (l_a1 l)) evs
+      else In (EvAlloc (l_p1 l) DIR_TO_DEV (l_a1 l)) evs /\ In (EvAlloc (l_p2 l) DIR_FROM_DEV (l_a2 l)) evs).
+Proof. exact mon612_holds_of_model. Qed.
+
+(* kind 613: a forbidden creation is refused having allocated and registered nothing; a successful one registered one queue of
+   the requested size *)
+Theorem C06_monitor_613_meaning : forall st forbid cls na ns rsz n,
+  snd (step_alloc st 613 [forbid; cls; na; ns; rsz; n]) = [1] ->
+  (forbid = 1 -> cls = 1 /\ na = 0 /\ ns = 0)
+  /\ (forbid <> 1 -> cls = 0 -> ns = 1 /\ rsz = n).
+Proof. exact mon613_meaning. Qed.
+
+Theorem C06_monitor_613_decodes : forall st ins, snd (step_alloc st 613 ins) = [1] ->
+  exists forbid cls na ns rsz n, ins = [forbid; cls; na; ns; rsz; n].
+Proof. exact mon613_decodes. Qed.
+
+(* kind 613 holds of queue_new of the model for EVERY size, layout, transport answer and platform answer *)
+Theorem C06_monitor_613_holds_of_model : forall st legacy n idx in_use maxsz a1 a2,
+  let r := queue_new legacy n idx in_use maxsz a1 a2 in
+  snd (step_alloc st 613 [b2n (in_use || (maxsz <? n)); res_class (fst r); n_allocs (snd r); lenN (queue_sets (snd r));
+                          reg_size (snd r); n]) = [1].
+Proof. exact mon613_holds_of_model. Qed.
+
 Print Assumptions C06_sizes.
 Print Assumptions C06_align_up_exact.
 Print Assumptions C06_align_up_general.
@@ -89,3 +147,10 @@ Print Assumptions C06_refusal_too_big.
 Print Assumptions C06_dma_failure.
 Print Assumptions C06_no_panic.
 Print Assumptions C06_release.
+Print Assumptions C06_monitor_ledger_meaning.
+Print Assumptions C06_monitor_612_meaning.
+Print Assumptions C06_monitor_612_decodes.
+Print Assumptions C06_monitor_612_holds_of_model.
+Print Assumptions C06_monitor_613_meaning.
+Print Assumptions C06_monitor_613_decodes.
+Print Assumptions C06_monitor_613_holds_of_model.
